@@ -43,6 +43,11 @@ def gen_cases(ctx):
     rng = ctx.rng
     yield from _regular_pairs(ctx, rng)
     yield from _switch_pairs(ctx, rng)
+    # cis / trans ring isomers (tied under colour refinement) whose deciding ligands carry ids with colliding hashes
+    for i in range(ctx.n(800, 10000)):
+        cls = STEREO[i % 2]
+        a, b = gen.cis_trans_pair_colliding(rng, cls)
+        yield {"kind": "indep", "cls": cls, "a": pg_to_json(a), "b": pg_to_json(sem.pg_relabel(b, gen.random_bijection(rng, b)) if i % 3 == 0 else b), "mut": None, "bseed": rng.randrange(1 << 30), "family": "colliding-ids", "direct": True}
     # the only stereo element sits in a bond stereo change, no bond changes its role, no atom stereo change
     for i in range(ctx.n(1600, 20000)):
         a, b = gen.bond_change_only_pair(rng)
